@@ -323,6 +323,9 @@ def check_output(orc, cfg, n):
     values = n["values"]
     # -------- which face does each returned item claim to be
     if values is not None:
+        if np.ndim(values) != 1:
+            bad.append(("data_length", f"data attached to the polygons has shape {tuple(np.shape(values))} for {len(rows)} polygons"))
+            return bad
         if len(values) != len(rows):
             bad.append(("data_length", f"{len(values)} data values for {len(rows)} polygons"))
             return bad
@@ -450,9 +453,11 @@ def _configs(projs, thorough):
             out.append(Cfg("gpc", pe, proj))
             out.append(Cfg("glc", pe, proj))
             out.append(Cfg("dpc", pe, proj))
+            out.append(Cfg("dpc", pe, proj, cache=False))
             for eng in ("spatialpandas", "geopandas"):
                 out.append(Cfg("ggdf", pe, proj, eng))
                 out.append(Cfg("dgdf", pe, proj, eng))
+            out.append(Cfg("dgdf", pe, proj, "geopandas", cache=False))
     return out
 
 
@@ -833,4 +838,88 @@ def gdf_frames(tier, seed):
              f"{{Grid, UxDataArray}}.to_geodataframe calls over periodic_elements in (exclude, ignore) x projections "
              f"{[ptag(p) for p in projs]} x project in (default, False), engine geopandas; "
              f"{'all' if thorough else '120 sampled'} pairs per mesh")
+    return result(cases, len(distinct), failures, bound, samples)
+
+
+
+# ------------------------------------------------------------------------------------------------ cache on / off sequences
+def cache_sequences(tier, seed):
+    """Sequences A, B, A of conversions on one grid where B is any other conversion of the same family - cached or made with
+    cache=False, with another projection (one of them, Orthographic, maps faces of a closed mesh to non-finite images, so the NaN
+    side table differs) - and the second A must equal A on a fresh grid: geometry, returned indices and the data values attached
+    to the polygons."""
+    thorough = tier == "thorough"
+    rng = random.Random(seed * 6151 + 3)
+    failures, cases, distinct, samples = [], 0, set(), []
+    split_ok = _split_available()
+    projs = [None, ccrs.Robinson(), ccrs.Orthographic(0, 0)]
+    meshes = [m for m in mg.catalogue(tier, seed) if m["n_face"] <= (60 if thorough else 26)]
+    closed = [m for m in meshes if m["closed"]]
+    am_m = [m for m in meshes if any(Oracle(m).am) and not m["closed"]]
+    pick = (closed[:1] + am_m[:1]) if not thorough else (closed[:4] + am_m[:4])
+    seen_keys = set()
+    for mesh in pick:
+        cfgs = []
+        for pe in PES:
+            if pe == "split" and not split_ok:
+                continue
+            for proj in projs:
+                if pe == "split" and proj is not None:
+                    continue
+                for cache in (True, False):
+                    cfgs.append(Cfg("gpc", pe, proj, cache=cache))
+                    cfgs.append(Cfg("dpc", pe, proj, cache=cache))
+                    cfgs.append(Cfg("ggdf", pe, proj, "geopandas", cache=cache))
+                    cfgs.append(Cfg("dgdf", pe, proj, "geopandas", cache=cache))
+        fam = {"gpc": "poly", "dpc": "poly", "ggdf": "gdf", "dgdf": "gdf"}
+        fresh = {}
+        for c in cfgs:
+            g, da = make(mesh)
+            try:
+                fresh[c.label()] = c.norm(c.call(g, da))
+            except Exception as e:  # noqa: BLE001
+                fresh[c.label()] = ("EXC", type(e).__name__)
+        seqs = [(a, b) for a in cfgs for b in cfgs if fam[a.site] == fam[b.site] and a.label() != b.label()
+                and (not b.cache or not a.cache or a.site != b.site or _differs(a, b) != "nothing")]
+        # the informative ones first: the middle call is uncached or differs in projection
+        rng.shuffle(seqs)
+        seqs.sort(key=lambda ab: (ab[1].cache, _ptag(ab[0].proj) == _ptag(ab[1].proj)))
+        if not thorough:
+            seqs = seqs[:220]
+        for a, b in seqs:
+            cases += 1
+            distinct.add((mesh["name"], a.label(), b.label()))
+            g, da = make(mesh)
+            try:
+                a.call(g, da)
+            except Exception:  # noqa: BLE001
+                pass
+            try:
+                b.call(g, da)
+            except Exception:  # noqa: BLE001
+                pass
+            try:
+                got = a.norm(a.call(g, da))
+            except Exception as e:  # noqa: BLE001
+                got = ("EXC", type(e).__name__)
+            ref = fresh[a.label()]
+            same = (got == ref) if (isinstance(got, tuple) or isinstance(ref, tuple)) else same_norm(got, ref)
+            if not same:
+                key = (f"sequence:{a.SITE[a.site]}:{'cached' if a.cache else 'cache=False'}:repeated_after:{b.SITE[b.site]}:"
+                       f"{'cached' if b.cache else 'cache=False'}:differs_in={_differs(a, b)}")
+                if key in seen_keys:
+                    continue
+                seen_keys.add(key)
+                failures.append({"key": key,
+                                 "what": f"{a.label()}, then {b.label()}, then {a.label()} again: the last result differs from the same "
+                                         f"call on a fresh grid",
+                                 "violated": "the result of a conversion depends only on its arguments, never on earlier conversions",
+                                 "inputs": {"mesh": mesh["name"], "sequence": [a.label(), b.label(), a.label()]},
+                                 "observed": _brief(got), "expected": _brief(ref)})
+            if len(samples) < 3:
+                samples.append({"mesh": mesh["name"], "sequence": [a.label(), b.label(), a.label()]})
+    bound = (f"{len(pick)} meshes (closed sphere + antimeridian patch, <= {60 if thorough else 26} faces) x sequences A, B, A over "
+             f"{{Grid, UxDataArray}}.{{to_polycollection, to_geodataframe(geopandas)}} x periodic_elements x projections "
+             f"(None, Robinson, Orthographic(0,0)) x cache in (True, False); {'all' if thorough else '220'} sequences per mesh, "
+             f"uncached / other-projection middle calls first")
     return result(cases, len(distinct), failures, bound, samples)
